@@ -21,6 +21,7 @@ type Scenario struct {
 	MapDesc   bool
 	PreemptIn []string // see Config.PreemptIn
 	PreemptionBounding bool
+	HighFirst          bool
 }
 
 // Issue is an oracle complaint about one execution.
@@ -70,7 +71,7 @@ type Options struct {
 	Claim func(chunk int) bool
 }
 
-const claimChunk = 2
+const claimChunk = 4
 
 // TraceKey canonicalises the observation trace of an execution.
 func TraceKey(r *Result) string {
@@ -96,7 +97,7 @@ func RunOnce(sc *Scenario, choices []int, selectCost int) *Result {
 	if sc.Reset != nil {
 		sc.Reset()
 	}
-	return Run(Config{Prefix: choices, MaxSteps: sc.MaxSteps, Invariant: sc.Invariant, SelectCost: selectCost, MapDesc: sc.MapDesc, PreemptIn: sc.PreemptIn, PreemptionBounding: sc.PreemptionBounding}, sc.Body)
+	return Run(Config{Prefix: choices, MaxSteps: sc.MaxSteps, Invariant: sc.Invariant, SelectCost: selectCost, MapDesc: sc.MapDesc, PreemptIn: sc.PreemptIn, PreemptionBounding: sc.PreemptionBounding, HighFirst: sc.HighFirst}, sc.Body)
 }
 
 // EventNames renders the events of a result.
